@@ -451,6 +451,23 @@ impl World for RWorld {
                 }
                 "ok".into()
             }
+            // `sendfill <who> <ch> <len> <byte>` submits ONE message of len copies of byte (implementation-only profiles:
+            // messages far beyond what a hex line can carry; the buffer is allocated once and handed over without a copy)
+            "sendfill" if t.len() == 5 => {
+                let ch = num!(t[2], u8);
+                let n = num!(t[3], usize);
+                let byte = num!(t[4], u8);
+                let m = vec![byte; n];
+                match parse_who(t[1]) {
+                    Some(Who::Client(h)) => match self.clients.get_mut(&h) {
+                        None => return BAD.into(),
+                        Some(c) => c.send_message(ch, m),
+                    },
+                    Some(Who::SConn(id)) => srv!().send_message(id, ch, m),
+                    _ => return BAD.into(),
+                }
+                "ok".into()
+            }
             "recvn" if t.len() == 4 => {
                 let ch = num!(t[2], u8);
                 let max = num!(t[3], u64);
